@@ -370,6 +370,7 @@ func nameAliases(stmts []ast.Stmt) map[string]bool {
 // switch or an if chain on the local name, then statements that every case which does not leave the iteration by
 // itself runs into (a skip shared by all cases)
 func (c *wCtx) casesOf(stmts []ast.Stmt, w *wWalker, where string) error {
+	stmts = inlineNameFlags(stmts)
 	// if X.Name.Local != "lit" { ...; continue } followed by what is done for "lit"
 	if len(stmts) >= 1 {
 		if is, ok := stmts[0].(*ast.IfStmt); ok && is.Init == nil && is.Else == nil && endsWithContinue(is.Body.List) {
@@ -1438,4 +1439,67 @@ func negatedGuard(cond ast.Expr, okName string) (ast.Expr, bool) {
 		}
 	}
 	return out, true
+}
+
+// inlineNameFlags: a boolean local that holds a condition on the name of the element (isRoot := t.Name.Local == "x" &&
+// t.Name.Space == ns) is replaced by that condition where an if statement of the same list tests it; the assignment
+// itself goes (it touches nothing but the name)
+func inlineNameFlags(stmts []ast.Stmt) []ast.Stmt {
+	flags := map[string]ast.Expr{}
+	mentionsName := func(e ast.Expr) bool {
+		found := false
+		ast.Inspect(e, func(n ast.Node) bool {
+			if x, ok := n.(ast.Expr); ok {
+				s := exprStringDeep(x)
+				if strings.HasSuffix(s, ".Name.Local") || strings.HasSuffix(s, ".Name.Space") {
+					found = true
+				}
+			}
+			return true
+		})
+		return found
+	}
+	var out []ast.Stmt
+	changed := false
+	for _, st := range stmts {
+		if as, ok := st.(*ast.AssignStmt); ok && as.Tok == token.DEFINE && len(as.Lhs) == 1 && len(as.Rhs) == 1 {
+			if id, ok := as.Lhs[0].(*ast.Ident); ok {
+				if be, ok := as.Rhs[0].(*ast.BinaryExpr); ok && (be.Op == token.LAND || be.Op == token.LOR || be.Op == token.EQL || be.Op == token.NEQ) && mentionsName(be) {
+					flags[id.Name] = &ast.ParenExpr{X: be}
+					changed = true
+					continue
+				}
+			}
+		}
+		if is, ok := st.(*ast.IfStmt); ok && len(flags) > 0 {
+			cond := is.Cond
+			for name, by := range flags {
+				if nc, ok := substIdent(cond, name, by); ok {
+					cond = nc
+				}
+			}
+			out = append(out, &ast.IfStmt{Init: is.Init, Cond: cond, Body: is.Body, Else: is.Else})
+			continue
+		}
+		out = append(out, st)
+	}
+	if !changed {
+		return stmts
+	}
+	// a flag that is still mentioned somewhere else: leave everything as it was (the caller refuses or not as before)
+	still := false
+	for _, st := range out {
+		ast.Inspect(st, func(n ast.Node) bool {
+			if id, ok := n.(*ast.Ident); ok {
+				if _, isFlag := flags[id.Name]; isFlag {
+					still = true
+				}
+			}
+			return true
+		})
+	}
+	if still {
+		return stmts
+	}
+	return out
 }
